@@ -509,6 +509,147 @@ func diffSlots(c []int) string {
 }
 
 // typed decoders: every spelling of an extension value / entity uid decodes to the same value.
+// decode into used receivers: a decode target that already holds a value (a reused
+// variable, a slice element, an entity reused in a loop) must end up exactly as a fresh one.
+func usedReceivers() *core.Family {
+	docs := []string{`{}`, `{"a":1}`, `{"b":{"__extn":{"fn":"decimal","arg":"1.5"}},"c":[1,2]}`, `[]`, `[1]`, `[true,"x",[2]]`}
+	entDocs := []string{
+		`{"uid":{"type":"U","id":"a"},"parents":[],"attrs":{},"tags":{}}`,
+		`{"uid":{"type":"U","id":"b"},"parents":[{"type":"G","id":"g"}],"attrs":{"k":1},"tags":{"t":"x"}}`,
+		`{"uid":{"type":"G","id":"g"},"parents":[],"attrs":{"admin":true},"tags":{}}`,
+		`{"uid":{"type":"G","id":"h"},"parents":[{"type":"G","id":"g"},{"type":"G","id":"i"}],"attrs":{},"tags":{"t":1,"u":2}}`,
+	}
+	// every document names all four members: Entity is a plain struct for encoding/json, and a
+	// member that is absent from a document is left as it was in a used struct (Go semantics)
+	n := len(docs)*len(docs) + len(entDocs)*len(entDocs)
+	return &core.Family{
+		Name: "decode-into-used-receivers",
+		Desc: fmt.Sprintf("every ordered pair of %d value documents (empty and non-empty records and sets) decoded one after the other into the SAME Record / Set / Value variable, and every ordered pair of %d entity documents into the same Entity: the result equals decoding the second document into a fresh variable", len(docs), len(entDocs)),
+		N:    int64(n),
+		Run: func(t *core.T, i int64) {
+			x := int(i)
+			if x < len(docs)*len(docs) {
+				first, second := docs[x/len(docs)], docs[x%len(docs)]
+				in := fmt.Sprintf("decode %s, then %s into the same variable", first, second)
+				{
+					var used, fresh types.Record
+					e1 := json.Unmarshal([]byte(first), &used)
+					e2 := json.Unmarshal([]byte(second), &used)
+					ef := json.Unmarshal([]byte(second), &fresh)
+					if e1 == nil && (e2 == nil) != (ef == nil) {
+						t.Fail("used-receiver:Record:error-differs", in, fmt.Sprint(ef), fmt.Sprint(e2))
+					} else if e1 == nil && ef == nil && (!used.Equal(fresh) || used.Len() != fresh.Len() || used.String() != fresh.String()) {
+						t.Fail("used-receiver:Record", in, fresh.String(), used.String())
+					}
+				}
+				{
+					var used, fresh types.Set
+					e1 := json.Unmarshal([]byte(first), &used)
+					e2 := json.Unmarshal([]byte(second), &used)
+					ef := json.Unmarshal([]byte(second), &fresh)
+					if e1 == nil && (e2 == nil) != (ef == nil) {
+						t.Fail("used-receiver:Set:error-differs", in, fmt.Sprint(ef), fmt.Sprint(e2))
+					} else if e1 == nil && ef == nil && (!used.Equal(fresh) || used.Len() != fresh.Len() || used.String() != fresh.String()) {
+						t.Fail("used-receiver:Set", in, fresh.String(), used.String())
+					}
+				}
+				{
+					var used, fresh types.Value
+					e1 := types.UnmarshalJSON([]byte(first), &used)
+					e2 := types.UnmarshalJSON([]byte(second), &used)
+					ef := types.UnmarshalJSON([]byte(second), &fresh)
+					if e1 == nil && (e2 == nil) != (ef == nil) {
+						t.Fail("used-receiver:Value:error-differs", in, fmt.Sprint(ef), fmt.Sprint(e2))
+					} else if e1 == nil && ef == nil && fresh != nil && (used == nil || !used.Equal(fresh)) {
+						t.Fail("used-receiver:Value", in, fmt.Sprint(fresh), fmt.Sprint(used))
+					}
+				}
+			} else {
+				x -= len(docs) * len(docs)
+				first, second := entDocs[x/len(entDocs)], entDocs[x%len(entDocs)]
+				in := fmt.Sprintf("decode %s, then %s into the same Entity", first, second)
+				var used, fresh types.Entity
+				e1 := json.Unmarshal([]byte(first), &used)
+				e2 := json.Unmarshal([]byte(second), &used)
+				ef := json.Unmarshal([]byte(second), &fresh)
+				if e1 != nil || e2 != nil || ef != nil {
+					t.Fail("harness-entity-doc", in, "decodes", fmt.Sprint(e1, e2, ef))
+					return
+				}
+				if !used.Equal(fresh) || used.Attributes.Len() != fresh.Attributes.Len() || used.Tags.Len() != fresh.Tags.Len() || used.Parents.Len() != fresh.Parents.Len() {
+					t.Fail("used-receiver:Entity", in, fmt.Sprint(fresh), fmt.Sprint(used))
+				}
+			}
+			t.Nontrivial()
+			t.AddStates(1)
+		},
+	}
+}
+
+// member names of the escape objects spelled with JSON string escapes: "\u005f_extn" IS
+// the key "__extn" (encoding/json resolves the escape), so the document is the same datum.
+func escapedKeys() *core.Family {
+	esc := func(s string, k int) string {
+		// spell character k of s as a \uXXXX escape
+		r := []rune(s)
+		return string(r[:k]) + fmt.Sprintf("\\u%04x", r[k]) + string(r[k+1:])
+	}
+	type c struct{ plain, escaped string }
+	var cases []c
+	for k := 0; k < len("__extn"); k++ {
+		cases = append(cases, c{`{"__extn":{"fn":"decimal","arg":"1.5"}}`, `{"` + esc("__extn", k) + `":{"fn":"decimal","arg":"1.5"}}`})
+	}
+	for k := 0; k < len("__entity"); k++ {
+		cases = append(cases, c{`{"__entity":{"type":"U","id":"a"}}`, `{"` + esc("__entity", k) + `":{"type":"U","id":"a"}}`})
+	}
+	for _, key := range []string{"fn", "arg"} {
+		cases = append(cases, c{`{"__extn":{"fn":"ip","arg":"10.0.0.1"}}`, strings.Replace(`{"__extn":{"fn":"ip","arg":"10.0.0.1"}}`, `"`+key+`"`, `"`+esc(key, 0)+`"`, 1)})
+	}
+	for _, key := range []string{"type", "id"} {
+		cases = append(cases, c{`{"__entity":{"type":"U","id":"a"}}`, strings.Replace(`{"__entity":{"type":"U","id":"a"}}`, `"`+key+`"`, `"`+esc(key, 1)+`"`, 1)})
+	}
+	wrap := []string{`%s`, `[%s,1]`, `{"k":%s}`, `{"k":[{"j":%s}]}`}
+	return &core.Family{
+		Name: "escaped-member-names",
+		Desc: fmt.Sprintf("%d spellings of the __extn / __entity escapes in which one character of a member name (__extn, __entity, fn, arg, type, id) is written as a JSON \\uXXXX escape, at top level and nested in a set, a record and a record in a set in a record: decodes to the same value as the plain spelling, as a value, as an entity attribute and as a request context member", len(cases)),
+		N:    int64(len(cases) * len(wrap)),
+		Run: func(t *core.T, i int64) {
+			cs := cases[int(i)/len(wrap)]
+			w := wrap[int(i)%len(wrap)]
+			plain, escaped := fmt.Sprintf(w, cs.plain), fmt.Sprintf(w, cs.escaped)
+			var vp, ve types.Value
+			ep := types.UnmarshalJSON([]byte(plain), &vp)
+			ee := types.UnmarshalJSON([]byte(escaped), &ve)
+			if ep != nil {
+				t.Fail("harness-plain-spelling-rejected", plain, "decodes", ep.Error())
+				return
+			}
+			if ee != nil || !ve.Equal(vp) {
+				t.Fail("escaped-member-name:value", escaped, fmt.Sprint(vp), fmt.Sprint(ve, ee))
+			} else {
+				// and the round trip of the escaped spelling is stable
+				js, _ := json.Marshal(ve)
+				var back types.Value
+				if err := types.UnmarshalJSON(js, &back); err != nil || !back.Equal(ve) {
+					t.Fail("escaped-member-name:second-roundtrip", escaped+" => "+string(js), fmt.Sprint(ve), fmt.Sprint(back, err))
+				}
+			}
+			entDoc := func(v string) string {
+				return `{"uid":{"type":"U","id":"a"},"parents":[],"attrs":{"x":` + v + `},"tags":{"t":` + v + `}}`
+			}
+			var entP, entE types.Entity
+			if err := json.Unmarshal([]byte(entDoc(plain)), &entP); err == nil {
+				if err := json.Unmarshal([]byte(entDoc(escaped)), &entE); err != nil || !entE.Equal(entP) {
+					t.Fail("escaped-member-name:entity", entDoc(escaped), fmt.Sprint(entP), fmt.Sprint(entE, err))
+				}
+			}
+			t.Nontrivial()
+			t.AddStates(1)
+			t.Sample(escaped)
+		},
+	}
+}
+
 func typedSpellings() *core.Family {
 	type c struct {
 		name string
@@ -609,7 +750,7 @@ func Check() *core.Check {
 		Assumptions: []string{"strings that are not valid UTF-8 are outside the domain (JSON cannot carry them)", "datetimes in the first representable day are excluded here (recorded under C12)"},
 		Families: func(tier string) []*core.Family {
 			initSchema()
-			fams := []*core.Family{valueFamily(), entityFamily(), entityMapFamily(), requestFamily(), typedSpellings(), spellingFamily()}
+			fams := []*core.Family{valueFamily(), entityFamily(), entityMapFamily(), requestFamily(), typedSpellings(), spellingFamily(), usedReceivers(), escapedKeys()}
 			if tier == "thorough" {
 				return append(fams, scalarFamily(0, 0x10FFFF))
 			}
